@@ -455,6 +455,22 @@ pub fn script(kind_arg: &str, seed: u64, count: usize) -> Vec<J> {
                     json!({"op":"num_decode","raw":[bytes_to_j(&p)],"a":{}})
                 }
             },
+            "syntax" => {
+                // token soups of the path languages: accepted or rejected, never a panic
+                const TOK: &[&str] = &["$", "@", ".", ":", "a", "ab", "[", "]", "*", ".*", "[*]", "?(", "(", ")", "==", "!=", "<", "<=", ">", ">=", "<>", "&&", "||", "\"", "\\", "\\u", "\\u{", "}", "{", ",",
+                                       "0", "1", "-1", "2147483648", "1.5", "1e3", "last", "LAST", "to", "-", "+", " ", "\t", "\n", "exists", "null", "true", "\"a\"", "\"\"", "é", "0041", "D800", "'"];
+                let n = g.r.gen_range(1..12);
+                let mut s = String::new();
+                for _ in 0..n { let t: &str = *g.pick(TOK); s.push_str(t); }
+                let op = if g.r.gen() { "jp_parse" } else { "kp_parse" };
+                json!({"op": op, "raw": [bytes_to_j(s.as_bytes())], "a": {"expect": "any"}})
+            }
+            "text" if n % 6 == 5 => {
+                // raw bytes
+                let len = g.r.gen_range(0..24);
+                let b: Vec<u8> = (0..len).map(|_| if g.r.gen_range(0..3) == 0 { g.r.gen() } else { *g.pick(b"[]{},:\"\\u0123456789-+.eEtrufalsn \n\x0c") }).collect();
+                json!({"op":"parse_value","raw":[bytes_to_j(&b)],"a":{}})
+            }
             "text" => {
                 let sp = g.r.gen_range(0..3);
                 let mut b = render_text(&d, sp, &g.fl_json());
